@@ -105,7 +105,7 @@ def canonRows (key : List (Str × List Str)) : List Cells → Except Err (List C
 def fragmentKeys : List Str :=
   [l!"type", l!"name", l!"label", l!"hint", l!"default", l!"bind::relevant", l!"bind::required",
    l!"bind::constraint", l!"bind::calculate", l!"bind::readonly", l!"bind::jr:constraintMsg",
-   l!"bind::jr:requiredMsg", l!"control::appearance"]
+   l!"bind::jr:requiredMsg", l!"control::appearance", l!"control::jr:count"]
 
 /-- cells that may contain `${name}` (they reach a bind through `insert_xpaths`) -/
 def logicKeys : List Str :=
@@ -113,6 +113,9 @@ def logicKeys : List Str :=
 
 /-- cells whose `${name}` become `<output value=…/>` (`insert_output_values`) -/
 def textKeys : List Str := [l!"label", l!"hint"]
+
+/-- cells that are expressions of their own (`insert_xpaths` on a dynamic default / the repeat count) -/
+def exprKeys : List Str := [l!"default", l!"control::jr:count"]
 
 def plainTypes : List Str := [l!"text", l!"integer", l!"decimal", l!"date", l!"note", l!"calculate"]
 
@@ -124,7 +127,8 @@ def keysNodup : Cells → Bool
 def rowOutside (r : Cells) : Option String :=
   if !(r.all fun kv => fragmentKeys.contains kv.1) then some "column outside the fragment"
   else if !keysNodup r then some "duplicate column"
-  else if r.any (fun kv => !logicKeys.contains kv.1 && !textKeys.contains kv.1 && isInfix (l!"${") kv.2) then
+  else if r.any (fun kv => !logicKeys.contains kv.1 && !textKeys.contains kv.1 && !exprKeys.contains kv.1 &&
+      isInfix (l!"${") kv.2) then
     some "reference outside a logic / label / hint cell"
   else
   match get r "type" with
@@ -132,9 +136,8 @@ def rowOutside (r : Cells) : Option String :=
   | some t =>
     if plainTypes.contains t then none
     else match matchSelect t with
-    | some (sel, _, other) =>
-      if other then some "or_other"
-      else if sel = l!"select one" || sel = l!"select all that apply" then none
+    | some (sel, _, _) =>
+      if sel = l!"select one" || sel = l!"select all that apply" then none
       else some "select type outside the fragment"
     | none =>
       if (matchControl "begin" true t).isSome then
@@ -152,6 +155,10 @@ structure Pay where
   attrs : Controls.Dict := []
   /-- source of the element's bind: type-table section and the row's `bind` dict (`Binds.Q`) -/
   bq : Binds.Q := { name := [], tt := none, bind := none }
+  /-- cells and bind source of the element the row *generates* beside its own
+      (`<repeat>_count` before a repeat, `<select>_other` after an `or_other` select) -/
+  hcells : Cells := []
+  hbq : Binds.Q := { name := [], tt := none, bind := none }
 deriving Repr, Inhabited
 
 inductive DItem where
@@ -173,18 +180,21 @@ def dpush (t : DItem) : DSt → DSt
   | (root, []) => (root ++ [t], [])
   | (root, f :: fs) => (root, { f with kids := f.kids ++ [t] } :: fs)
 
-def dpushOpt (t : Option QData) (st : DSt) : DSt :=
+def dpushOpt (t : Option QData) (hp : Pay) (st : DSt) : DSt :=
   match t with
-  | some d => dpush (.q d {}) st
+  | some d => dpush (.q d hp) st
   | none => st
+
+/-- the decoration of the generated element of a row -/
+def helperPay (p : Pay) : Pay := { cells := p.hcells, bq := p.hbq }
 
 /-- `Form.step` on decorated items -/
 def dstep (st : DSt) (n : Nat) (p : Pay) : RowK → Except Form.Err DSt
   | .skip => .ok st
   | .bad e => .error (.row n e)
-  | .q d other => .ok (dpushOpt other (dpush (.q d p) st))
+  | .q d other => .ok (dpushOpt other (helperPay p) (dpush (.q d p) st))
   | .begin_ ct name bind helper =>
-    let (root, fs) := dpushOpt helper st
+    let (root, fs) := dpushOpt helper (helperPay p) st
     .ok (root, ⟨ct, name, bind, p, []⟩ :: fs)
   | .end_ ct =>
     match st with
@@ -248,29 +258,41 @@ def ownAttrs (k : RowK) (cs : List Controls.Ctl) : Controls.Dict :=
   | .q d _ => if d.control then (cs.head?.map (·.2)).getD [] else []
   | _ => []
 
-/-- a static default (`default_is_dynamic` is false); `none` = dynamic or lexer table not the pinned one -/
-def defaultStatic (r : Cells) : Bool :=
+def typeName (r : Cells) : Str :=
+  match get r "type" with
+  | some t => (match matchSelect t with | some (sel, _, _) => sel | none => t)
+  | none => []
+
+/-- `default_is_dynamic(self.default, self.type)`; `none` = no default cell / lexer table not the pinned one -/
+def defaultDyn (r : Cells) : Option Bool :=
   match get r "default" with
-  | none => true
-  | some dv =>
-    let ty := match get r "type" with
-      | some t => (match matchSelect t with | some (sel, _, _) => sel | none => t)
-      | none => []
-    Lexer.defaultIsDynamic dv ty == some false
+  | none => none
+  | some dv => Lexer.defaultIsDynamic dv (typeName r)
+
+def isDynDefault (r : Cells) : Bool := defaultDyn r == some true
+def isStaticDefault (r : Cells) : Bool := defaultDyn r == some false
+
+/-- bind source and cells of the generated element of a row (xls2json.py 893-912, 1082-1100) -/
+def helperOf (k : RowK) (r : Cells) : Cells × Binds.Q :=
+  match k with
+  | .begin_ _ name _ (some h) =>
+    ([], { name := h.name, tt := Binds.typeBind (l!"calculate"),
+           bind := some [(l!"readonly", .s (l!"true()")), (l!"calculate", .s ((get r "control::jr:count").getD []))] })
+  | .q d (some o) =>
+    ([(l!"label", l!"Specify other.")],
+     { name := o.name, tt := Binds.typeBind (l!"text"),
+       bind := some [(l!"relevant", .s (l!"selected(../" ++ d.name ++ l!", 'other')"))] })
+  | _ => ([], { name := [], tt := none, bind := none })
 
 /-- one canonical row (number `n`) ↦ its classification and decoration -/
 def decorate (lists : List Str) (n : Nat) (r : Cells) : Except Err (RowK × Pay) :=
   match rowOutside r with
   | some w => .error (.unsupported w)
   | none =>
-  if !defaultStatic r then .error (.unsupported "dynamic default") else
+  if (get r "default").isSome && (defaultDyn r).isNone then .error (.unsupported "lexer rule table is not the pinned one") else
   match classify lists n r with
   | .unsupported w => .error (.unsupported w)
   | .row k =>
-    match k with
-    | .q _ (some _) => .error (.unsupported "or_other companion")
-    | .begin_ _ _ _ (some _) => .error (.unsupported "repeat count helper")
-    | _ =>
     match Controls.rowControls lists n r with
     | .error (.unsup w) => .error (.unsupported w)
     | .error (.err w) =>
@@ -278,7 +300,8 @@ def decorate (lists : List Str) (n : Nat) (r : Cells) : Except Err (RowK × Pay)
       (match k with
        | .bad _ => .ok (k, {})
        | _ => .error (.rejected w))
-    | .ok cs => .ok (k, { cells := r, attrs := ownAttrs k cs, bq := rowQ (kName k) r })
+    | .ok cs => .ok (k, { cells := r, attrs := ownAttrs k cs, bq := rowQ (kName k) r,
+                          hcells := (helperOf k r).1, hbq := (helperOf k r).2 })
 
 def decorateAll (lists : List Str) : Nat → List Cells → Except Err (List ((Nat × RowK) × Pay))
   | _, [] => .ok []
@@ -318,7 +341,10 @@ def topNames : List DItem → List Str
 mutual
 /-- (path, default text) of every question with a `default` cell -/
 def defaultsOf (pre : List Str) : DItem → List (List Str × Str)
-  | .q d p => (match get p.cells "default" with | some v => [(pre ++ [d.name], v)] | none => [])
+  | .q d p =>
+    (match get p.cells "default" with
+     | some v => if isStaticDefault p.cells then [(pre ++ [d.name], v)] else []
+     | none => [])
   | .sec _ n _ _ ks => defaultsOfL (pre ++ [n]) ks
 def defaultsOfL (pre : List Str) : List DItem → List (List Str × Str)
   | [] => []
@@ -405,13 +431,39 @@ def bindAttrs (els : List Refs.Chain) (ctx : Refs.Chain) (q : Binds.Q) : Option 
     if a.all (fun kv => Asm.attrLocal kv.1 != l!"nodeset") then some a else none
   | none => none
 
+def evFirstLoad : Str := l!"odk-instance-first-load"
+def evNewRepeat : Str := l!"odk-instance-first-load odk-new-repeat"
+
+/-- `get_setvalue_node_for_dynamic_default`: `node("setvalue", ref=…, value=insert_xpaths(default, self), event=…)` -/
+def setvalueNode (els : List Refs.Chain) (ctx : Refs.Chain) (dv : Str) (inRepeat : Bool) : Node :=
+  Asm.pyNode (l!"setvalue")
+    [(l!"ref", xpathStr ctx.path), (l!"value", (Refs.insertXpaths els (some ctx) {} dv).getD dv),
+     (l!"event", if inRepeat then evNewRepeat else evFirstLoad)] []
+
+/-- the setvalue of an element's dynamic default, if it has one -/
+def dynSetOf (els : List Refs.Chain) (ctx : Refs.Chain) (r : Cells) (inRepeat : Bool) : List Node :=
+  match get r "default" with
+  | some dv => if isDynDefault r then [setvalueNode els ctx dv inRepeat] else []
+  | none => []
+
+/-- an expression cell that goes through `insert_xpaths`: outside the fragment, or a reference that does not resolve -/
+def exprErr (els : List Refs.Chain) (ctx : Refs.Chain) (v : Str) : Option Err :=
+  if refUnsupported v then some (.unsupported "expression outside the fragment")
+  else if (Refs.insertXpaths els (some ctx) {} v).isNone then some (.rejected "reference")
+  else none
+
+def inRep (pc : Refs.Chain) : Bool := pc.any fun s => s.2 == Refs.Kind.rep
+
 def bindNode (els : List Refs.Chain) (ctx : Refs.Chain) (q : Binds.Q) : Node :=
   Asm.pyNode (l!"bind") ((l!"nodeset", xpathStr ctx.path) :: (bindAttrs els ctx q).getD []) []
 
 mutual
 /-- `xml_descendent_bindings`: one `<bind>` per element that has a bind dict, document order -/
 def bindNodes (els : List Refs.Chain) (pc : Refs.Chain) : DItem → List Node
-  | .q d p => if d.bind then [bindNode els (pc ++ [(d.name, .q)]) p.bq] else []
+  | .q d p =>
+    (if d.bind then [bindNode els (pc ++ [(d.name, .q)]) p.bq] else []) ++
+    -- dynamic defaults of elements without a repeat ancestor go into the model, after the element's bind
+    (if inRep pc then [] else dynSetOf els (pc ++ [(d.name, .q)]) p.cells false)
   | .sec ct n b p ks =>
     (if b then [bindNode els (pc ++ [(n, kindOf ct)]) p.bq] else []) ++ bindNodesL els (pc ++ [(n, kindOf ct)]) ks
 def bindNodesL (els : List Refs.Chain) (pc : Refs.Chain) : List DItem → List Node
@@ -536,6 +588,25 @@ def itemsetNodes (r : Cells) : List Node :=
         [Asm.pyNode (l!"value") [(l!"ref", o.value)] [], Asm.pyNode (l!"label") [(l!"ref", o.label)] []]]
 
 mutual
+/-- `RepeatingSection._dynamic_defaults_helper`: setvalues of a repeat's descendants that are not inside a nested repeat -/
+def dynSets (els : List Refs.Chain) (pre : List Str) : DItem → List Node
+  | .q d p => dynSetOf els (ctxOf els (pre ++ [d.name])) p.cells true
+  | .sec .rep _ _ _ _ => []
+  | .sec _ n _ _ ks => dynSetsL els (pre ++ [n]) ks
+def dynSetsL (els : List Refs.Chain) (pre : List Str) : List DItem → List Node
+  | [] => []
+  | k :: ks => dynSets els pre k ++ dynSetsL els pre ks
+end
+
+/-- control attributes of a repeat through `insert_xpaths(value, self)` (`jr:count`) -/
+def subAttrs (els : List Refs.Chain) (ctx : Refs.Chain) (a : Controls.Dict) : Controls.Dict :=
+  a.map fun kv => (kv.1, (Refs.insertXpaths els (some ctx) {} kv.2).getD kv.2)
+
+def attrsErr (els : List Refs.Chain) (ctx : Refs.Chain) : Controls.Dict → Option Err
+  | [] => none
+  | (_, v) :: rest => orErr (exprErr els ctx v) (attrsErr els ctx rest)
+
+mutual
 /-- `xml_control` of an element, document order -/
 def bodyNodes (els : List Refs.Chain) (pre : List Str) : DItem → List Node
   | .q d p =>
@@ -546,7 +617,8 @@ def bodyNodes (els : List Refs.Chain) (pre : List Str) : DItem → List Node
   | .sec .rep n _ p ks =>
     [Asm.pyNode (l!"group") [(l!"ref", xpathStr (pre ++ [n]))]
       [labelNode els (pre ++ [n]) p.cells,
-       Asm.pyNode (l!"repeat") ((l!"nodeset", xpathStr (pre ++ [n])) :: p.attrs) (bodyNodesL els (pre ++ [n]) ks)]]
+       Asm.pyNode (l!"repeat") ((l!"nodeset", xpathStr (pre ++ [n])) :: subAttrs els (ctxOf els (pre ++ [n])) p.attrs)
+         (bodyNodesL els (pre ++ [n]) ks ++ dynSetsL els (pre ++ [n]) ks)]]
   | .sec _ n _ p ks =>
     [Asm.pyNode (l!"group") (p.attrs ++ [(l!"ref", xpathStr (pre ++ [n]))])
       ((if has p.cells "label" then [labelNode els (pre ++ [n]) p.cells] else []) ++ bodyNodesL els (pre ++ [n]) ks)]
@@ -556,14 +628,20 @@ def bodyNodesL (els : List Refs.Chain) (pre : List Str) : List DItem → List No
 end
 
 mutual
-/-- the first problem with a rendered label / hint, document order -/
+/-- the first problem with a rendered label / hint / dynamic default / repeat count, document order -/
 def textsErr (els : List Refs.Chain) (pre : List Str) : DItem → Option Err
   | .q d p =>
-    if d.control then
-      orErr (textErr els (pre ++ [d.name]) (l!"label") (get p.cells "label"))
-            (textErr els (pre ++ [d.name]) (l!"hint") (get p.cells "hint"))
-    else none
-  | .sec _ n _ p ks => orErr (textErr els (pre ++ [n]) (l!"label") (get p.cells "label")) (textsErrL els (pre ++ [n]) ks)
+    orErr
+      (if d.control then
+        orErr (textErr els (pre ++ [d.name]) (l!"label") (get p.cells "label"))
+              (textErr els (pre ++ [d.name]) (l!"hint") (get p.cells "hint"))
+       else none)
+      (match get p.cells "default" with
+       | some dv => if isDynDefault p.cells then exprErr els (ctxOf els (pre ++ [d.name])) dv else none
+       | none => none)
+  | .sec ct n _ p ks =>
+    orErr (textErr els (pre ++ [n]) (l!"label") (get p.cells "label"))
+      (orErr (if ct = .rep then attrsErr els (ctxOf els (pre ++ [n])) p.attrs else none) (textsErrL els (pre ++ [n]) ks))
 def textsErrL (els : List Refs.Chain) (pre : List Str) : List DItem → Option Err
   | [] => none
   | k :: ks => orErr (textsErr els pre k) (textsErrL els pre ks)
@@ -626,6 +704,15 @@ def fieldsOf (wb : Workbook) : Except Err Asm.Fields :=
       let sv := Settings.surveyOf (Settings.jsonRoot st {})
       .ok { name := sv.name, title := sv.title, idString := sv.idString, version := sv.version }
 
+/-- or_other selects append the choice `other` to their (shared) list (xls2json.py 1036-1078) -/
+def othersApplied : List Cells → List (Str × List Choices.Choice) → List (Str × List Choices.Choice)
+  | [], lists => lists
+  | r :: rs, lists =>
+    othersApplied rs
+      (match get r "type" with
+       | some t => (match matchSelect t with | some (_, ln, true) => Choices.addOther ln lists | _ => lists)
+       | none => lists)
+
 /-! ## 9. the whole conversion -/
 
 /-- the DOM tree `Survey.xml()` returns -/
@@ -682,7 +769,7 @@ def convertDoc (wb : Workbook) : Except Err Node :=
   | some e => .error e
   | none =>
   let rootKids := instNodes (defaultsOfL [root] ditems) [root] (ntKids o.inst)
-  let insts := (Choices.staticInsts [] lists).map Choices.instNode
+  let insts := (Choices.staticInsts [] (othersApplied rows lists)).map Choices.instNode
   let binds := bindNodesL els rc dall
   let body := bodyNodesL els [root] ditems
   let doc := Asm.assemble f none rootKids (insts ++ binds) body
